@@ -142,7 +142,8 @@ func RunOnce(t *testing.T, env *Env, p *Prop, seed, run uint64, vals []uint32, r
 			func() {
 				defer func() {
 					if r := recover(); r != nil {
-						s.Violate("harness-panic:"+sim.Normalize(fmt.Sprint(r)), fmt.Sprintf("scenario root panicked: %v\n%s", r, sim.TrimStack(debug.Stack())))
+						// a panic on the scenario's own goroutine is harness trouble, never a verdict
+						res.Harness = fmt.Sprintf("scenario root panicked: %v\n%s", r, sim.TrimStack(debug.Stack()))
 					}
 				}()
 				p.Run(ctx)
